@@ -26,7 +26,8 @@ func (w *World) RefinementUnits() []string {
 			continue
 		}
 		for _, f := range sortedKeys(c.Flags) {
-			if strings.HasPrefix(f, "refines:") {
+			if strings.HasPrefix(f, "refines:") && w.streamParamTypes(strings.TrimPrefix(c.Key, "stream.")) != nil {
+				// (a stream none of whose producers exists in this build variant has nothing to refine)
 				out = append(out, c.Key+"/refines#"+strings.TrimPrefix(f, "refines:"))
 			}
 		}
